@@ -56,6 +56,14 @@ class sym_int(metaclass=_IntMeta):
             if x.n.sort == E.B:
                 return Sym(E.ite(x.n, E.ONE, E.ZERO))
             raise Unmodelled("int() truncation of a symbolic real")
+        if isinstance(x, str) and "<sym#" in x:
+            # a symbolic integer that went through string formatting (ghost text files) and is parsed back
+            from .ghostfs import node_from_placeholder
+
+            n = node_from_placeholder(x.strip())
+            if n is None or n.sort != E.I:
+                raise ValueError("invalid literal for int() with base 10: %r" % x)
+            return Sym(n)
         return builtins.int(x, *a)
 
 
